@@ -63,6 +63,7 @@ SPECS = {
     ]),
     "location_test": dict(mod="qartod", kind="position", needs=(), none_ok=True, cfgs=[
         dict(), dict(bbox=[-10, -5, 10, 5]), dict(range_max=100_000), dict(bbox=(-10, -5, 10, 5), range_max=100_000, _tuple=True),
+        dict(bbox=[0.5, 30, 40, 70]),
     ]),
     "speed_test": dict(mod="argo", kind="position", needs=("t",), none_ok=True, cfgs=[
         dict(suspect_threshold=1000, fail_threshold=3000), dict(suspect_threshold=1e9, fail_threshold=1e9),
@@ -89,6 +90,11 @@ def carrier(vals, how):
         return alpha.pylist(vals)
     if how == "tuple":
         return tuple(alpha.pylist(vals))
+    if how == "mai":  # integer masked array (missing = masked, 7 underneath); None when a value is not integral
+        if any(v not in (NAN, None) and float(v) != int(v) for v in vals):
+            return None
+        miss = [v in (NAN, None) for v in vals]
+        return np.ma.MaskedArray(np.array([7 if m else int(v) for v, m in zip(vals, miss)], dtype="int64"), mask=miss)
     if how == "ma2":  # masked array with an explicit all-False mask and un-masked NaNs
         return np.ma.MaskedArray(alpha.nd(vals), mask=np.zeros(len(vals), dtype=bool))
     if how == "ma":  # masked array with adversarial data under the mask
